@@ -113,6 +113,19 @@ def contracts():
                   "not title.replace('_', ' ').startswith('Main:')"],
         ensures=["implies(sql_count('select') == 1, sql_params(0)[0] == title.replace('_', ' '))"],
         raises=["sqlite3.ProgrammingError"], result=""))
+    # a title spelled with some other prefix (alias or other letter case) A + ':' + rest, A without a colon: the key
+    # looked up is the local prefix followed by `rest` -- everything after the FIRST colon, so names that contain
+    # colons themselves keep them -- or, when A is not a prefix of this namespace, the local prefix + the whole title
+    cs.append(Contract(
+        target="core:Wtp.get_page", variant="other_prefix", prop="C10", mode="value",
+        params={"title": "str", "namespace_id": "int", "no_redirect": "bool"},
+        requires=["memo_coherent()", "namespace_id != 0", "namespace_id in ctx.LOCAL_NS_NAME_BY_ID",
+                  "':' in title", "'_' not in title", "not title.startswith('Main:')",
+                  "not title.startswith(ctx.LOCAL_NS_NAME_BY_ID[namespace_id] + ':')"],
+        ensures=["implies(sql_count('select') == 1, sql_params(0)[0] == PFX + title[title.index(':') + 1:] "
+                 "or sql_params(0)[0] == PFX + title)"],
+        lets={"PFX": "ctx.LOCAL_NS_NAME_BY_ID[namespace_id] + ':'"},
+        raises=["sqlite3.ProgrammingError"], result=""))
     cs.append(Contract(target="core:Wtp.close_db_conn", prop="C10", mode="frame",
                        ensures=["sql_kind(0) == 'commit'", "sql_kind(1) == 'close'"]))
     return cs
